@@ -5,7 +5,7 @@ ways, none of which comes from the code under test: (1) closed definitions prove
 packed-integer format), (2) digests / CRCs computed ONCE by the pinned tree (vectors/C16/*.txt), (3) tiny arrays
 written ONCE by the pinned binary (vectors/C16/arrays).  The Gallina models are tied to the C on every run by
 the unit driver harness/c/c16_drv.c (model = extracted OCaml)."""
-import os, sys, json, time, threading
+import os, sys, json, time, threading, shutil
 from common import *
 import c16_lib as L
 import c16_arrays as A
@@ -87,6 +87,57 @@ def replay_case(path):
     out = run_lines(drv, [line], shards=1, env=dict(os.environ, C16_TMP=mkscratch('c16.')))[0]
     print('case     : %s\nC now    : %s\nreference: %s\nthen     : %s' % (line[:300], out, rp.get('expected'), rp.get('got')))
     return 0 if out == rp.get('expected') else 1
+
+
+def content_hash_records(data):
+    """the hash part of a content file as written by state_write: header, then z x [y] c [C] in this order.
+    returns (kind, seed, prevkind or None, prevseed or None)"""
+    kinds = {ord('u'): 'murmur3', ord('k'): 'spooky2', ord('m'): 'metro'}
+    p = 12
+    cur = prev = None
+    while p < len(data):
+        c = chr(data[p])
+        if c in 'zxy':
+            r = L.getb(data[p + 1:p + 8], 32)
+            p += 1 + r[2]
+        elif c in 'cC':
+            rec = (kinds[data[p + 1]], bytes(data[p + 2:p + 18]))
+            if c == 'c':
+                cur = rec
+            else:
+                prev = rec
+            p += 18
+        else:
+            break
+    return cur[0], cur[1], (prev[0] if prev else None), (prev[1] if prev else None)
+
+
+def array_block_hash_cases():
+    """every block hash stored in the vendored content files, with the bytes of its block and its "to rehash" flag:
+    (array, file, block index, rehash, model line, C line, stored hash hex, hash size)"""
+    import content as CT
+    out = []
+    for n in A.list_specs():
+        man = json.load(open(os.path.join(A.ARR, n + '.json')))
+        w = mkscratch('c16h.')
+        root = A.unpack(n, w, man)
+        data = open(os.path.join(root, 'content', 'snapraid.content'), 'rb').read()
+        st = CT.parse(data)
+        kind, seed, pk, ps = content_hash_records(data)
+        bs, hs = st['blocksize'], st['hashsize']
+        for dname, d in st['disks'].items():
+            for f in d['files']:
+                fb = open(os.path.join(root.encode(), dname.encode(), f['sub']), 'rb').read()
+                for k, (state, pos, h) in enumerate(f['blocks']):
+                    info = st['info'][pos] if pos < len(st['info']) else None
+                    rh = bool(info and info['rehash'])
+                    blk = fb[k * bs:(k + 1) * bs]
+                    ml = 'blockhash %s %s %s %s %d %d %s' % (kind, seed.hex(), pk or 'none', ps.hex() if ps else '-', 1 if rh else 0, hs, L.hx(blk))
+                    sk, ss = (pk, ps) if rh else (kind, seed)
+                    cl = 'hash %s %s 0 %s' % (sk, ss.hex(), L.hx(blk))
+                    out.append((n, dname + '/' + f['sub'].decode('latin-1'), k, rh, ml, cl, h.hex(), hs))
+        shutil.rmtree(w, ignore_errors=True)
+    return out
 
 
 def rbytes(rng, n):
@@ -368,6 +419,31 @@ def main(tier, replay=None):
                 if al_bad <= 3:
                     chk.violation('hash_align', 'memhash %s gives different digests for the same bytes at alignment %s and 0' % (t[1], t[3]),
                                   {'case_line': line, 'got': by_line.get(line), 'at_alignment_0': by_line.get(l0)})
+    # ---------------- every block hash stored in the vendored content files ----------------
+    # reference = what the pinned binary recorded; model = extracted HashSelect.block_hash (kind/seed selected by the
+    # block's "to rehash" flag); C = memhash of the working tree with the pair the rule selects
+    try:
+        bh = array_block_hash_cases()
+    except Exception as e:     # noqa
+        bh = []
+        chk.violation('array_hashes', 'cannot decode the vendored content files: %r' % e, {'error': repr(e)}, no_input=True)
+    bh_m = run_lines(model, [x[4] for x in bh]) if (model and bh) else []
+    bh_c = run_lines(drv, [x[5] for x in bh], env=env) if bh else []
+    bst = {'blocks': len(bh), 'flagged_to_rehash': sum(1 for x in bh if x[3]), 'model_mismatch': 0, 'c_mismatch': 0}
+    for k, x in enumerate(bh):
+        exp = 'ok ' + x[6]
+        if bh_c and bh_c[k][:3 + 2 * x[7]] != exp:
+            bst['c_mismatch'] += 1
+            if bst['c_mismatch'] <= 3:
+                chk.violation('array_hash_c_%d' % k, 'block %d of %s in reference array %s: memhash of the working tree gives %s, the reference version stored %s (to-rehash flag %s)'
+                              % (x[2], x[1][:40], x[0], bh_c[k][:3 + 2 * x[7]], exp, x[3]), {'case_line': x[5], 'got': bh_c[k], 'expected_prefix': exp, 'array': x[0], 'file': x[1], 'block': x[2]})
+        if bh_m and bh_m[k] != exp:
+            bst['model_mismatch'] += 1
+            if bst['model_mismatch'] <= 3 and not (bh_c and bh_c[k][:3 + 2 * x[7]] != exp):
+                chk.violation('array_hash_model_%d' % k, 'MODEL-DRIFT: block %d of %s in reference array %s: HashSelect.block_hash gives %s, the reference version stored %s (to-rehash flag %s)'
+                              % (x[2], x[1][:40], x[0], bh_m[k], exp, x[3]), {'case_line': x[4], 'model': bh_m[k], 'stored': exp}, no_input=True)
+    chk.cov['stored_block_hashes'] = bst
+
     # ---------------- vendored arrays with the binary of the working tree ----------------
     tb.join()
     arr_cov = {}
@@ -392,8 +468,8 @@ def main(tier, replay=None):
         for n in names:
             fails, nc, det = res[n]
             ncmd += nc
-            arr_cov[n] = {'commands': nc, 'erasure_sets': len(det.get('erasure_sets', [])), 'failures': len(fails)}
-            for f in fails[:2]:
+            arr_cov[n] = {'commands': nc, 'erasure_sets': len(det.get('erasure_sets', [])), 'split_loss_scenarios': det.get('split_scenarios', 0), 'failures': len(fails)}
+            for f in fails[:3]:
                 chk.violation('array_%s' % n, 'vendored reference array %s (written by the pinned binary) is no longer handled: step "%s" %s'
                               % (n, f.get('step'), json.dumps({k: v for k, v in f.items() if k not in ('array', 'step', 'output_tail')})[:300]),
                               {'array_tar': 'vectors/C16/arrays/%s.tar' % n, 'manifest': 'vectors/C16/arrays/%s.json' % n, 'failure': f,
